@@ -126,6 +126,8 @@ class Report:
         if len(self.violations) >= 25:       # enough to act on; keep the output readable
             self.violations.append((key, message, None))
             return
+        if any(v[0] == key and v[1] == message for v in self.violations):
+            return
         payload = {"property": self.pid, "key": key, "message": message, "replay": _jsonable(replay or {})}
         h = hashlib.sha1(json.dumps(payload, sort_keys=True).encode()).hexdigest()[:12]
         d = VERIF / "replays" / self.pid
